@@ -1,6 +1,7 @@
 package storekit
 
 import (
+	"context"
 	"encoding/json"
 	"fmt"
 	"reflect"
@@ -97,9 +98,6 @@ func (n *Node) CheckMethodCoverage() []string {
 // 0..count, every root of the current history, the dropped forks' roots for lookups, one unknown
 // hash, a few pagings). Proof requests are made for roots of the CURRENT history only.
 func (n *Node) Observe(c *Chain) []Obs {
-	if u := n.CheckMethodCoverage(); len(u) > 0 {
-		panic(fmt.Sprintf("storekit: facade %s has unclassified exported methods %v: add them to queriedMethods (and Observe) or nonQueryMethods", n.Kind, u))
-	}
 	var out []Obs
 	last := time.Now()
 	add := func(call string, vals ...any) {
@@ -269,6 +267,10 @@ func (n *Node) Observe(c *Chain) []Obs {
 			add(fmt.Sprintf("GetFirstGERAfterL1InfoTreeIndex(%d)", x), g, err)
 		}
 	}
+	// exported facade methods this package does not know by name (added to aggkit later): called by reflection when
+	// every parameter is a context, an integer, a bool or a hash; the others are listed in Unclassified (reported by the
+	// checks as a note, not as an error: an added entry point must not turn the check into a harness failure)
+	n.observeUnclassified(c, add)
 	return out
 }
 
@@ -283,6 +285,95 @@ func proofPositions(j int) []int {
 		out = append(out, j)
 	}
 	return out
+}
+
+var ctxType = reflect.TypeOf((*context.Context)(nil)).Elem()
+
+// SkippedMethods collects, per process, the unclassified facade methods that could not be called by reflection.
+var SkippedMethods = map[string]bool{}
+
+func (n *Node) observeUnclassified(c *Chain, add func(call string, vals ...any)) {
+	names := n.CheckMethodCoverage()
+	if len(names) == 0 {
+		return
+	}
+	tip := c.Tip()
+	roots := ref.AppendRoots(c.Leaves())
+	fac := reflect.ValueOf(n.facade())
+	for _, name := range names {
+		m := fac.MethodByName(name)
+		t := m.Type()
+		if t.NumOut() == 0 || t.IsVariadic() {
+			SkippedMethods[string(n.Kind)+"."+name] = true
+			continue
+		}
+		pools := make([][]reflect.Value, t.NumIn())
+		ok := true
+		for i := 0; i < t.NumIn() && ok; i++ {
+			pt := t.In(i)
+			switch {
+			case pt == ctxType:
+				pools[i] = []reflect.Value{reflect.ValueOf(ctx)}
+			case pt.Kind() == reflect.Bool:
+				pools[i] = []reflect.Value{reflect.ValueOf(false).Convert(pt), reflect.ValueOf(true).Convert(pt)}
+			case pt.Kind() == reflect.Uint64 || pt.Kind() == reflect.Uint32 || pt.Kind() == reflect.Uint || pt.Kind() == reflect.Int ||
+				pt.Kind() == reflect.Int64 || pt.Kind() == reflect.Int32 || pt.Kind() == reflect.Uint8:
+				for x := uint64(0); x <= tip+1 || x <= uint64(len(roots)); x++ {
+					pools[i] = append(pools[i], reflect.ValueOf(x).Convert(pt))
+				}
+			case pt == reflect.TypeOf(common.Hash{}):
+				hs := append([]common.Hash{h("unknown-hash")}, roots...)
+				for _, b := range c.Blocks {
+					hs = append(hs, b.Hash)
+				}
+				for _, x := range hs {
+					pools[i] = append(pools[i], reflect.ValueOf(x))
+				}
+			default:
+				ok = false
+			}
+		}
+		if !ok {
+			SkippedMethods[string(n.Kind)+"."+name] = true
+			continue
+		}
+		idx := make([]int, len(pools))
+		for calls := 0; calls < 64; calls++ {
+			args := make([]reflect.Value, len(pools))
+			var txt []string
+			for i := range pools {
+				args[i] = pools[i][idx[i]]
+				if pools[i][idx[i]].Type() != ctxType && t.In(i) != ctxType {
+					txt = append(txt, fmt.Sprintf("%v", args[i].Interface()))
+				}
+			}
+			func() {
+				defer func() {
+					if r := recover(); r != nil {
+						add(fmt.Sprintf("%s(%s)", name, strings.Join(txt, ",")), fmt.Sprintf("panic: %v", r))
+					}
+				}()
+				outs := m.Call(args)
+				vals := make([]any, len(outs))
+				for i, o := range outs {
+					vals[i] = o.Interface()
+				}
+				add(fmt.Sprintf("%s(%s)", name, strings.Join(txt, ",")), vals...)
+			}()
+			// next tuple (odometer)
+			k := len(idx) - 1
+			for ; k >= 0; k-- {
+				idx[k]++
+				if idx[k] < len(pools[k]) {
+					break
+				}
+				idx[k] = 0
+			}
+			if k < 0 {
+				break
+			}
+		}
+	}
 }
 
 // proofRoots: the first and the last recorded root.
